@@ -41,6 +41,8 @@ pub enum Op {
     Query(String),
     Node(String),
     Sizes,
+    /// `LuaIndex::clear`
+    Clear,
 }
 
 #[derive(Clone, Debug)]
@@ -66,6 +68,7 @@ impl Case {
                 Op::Query(q) => json!(["query", q]),
                 Op::Node(q) => json!(["node", q]),
                 Op::Sizes => json!(["sizes"]),
+                Op::Clear => json!(["clear"]),
             }).collect::<Vec<_>>(),
         })
     }
@@ -100,6 +103,7 @@ impl Case {
                 "query" => Op::Query(st(1)),
                 "node" => Op::Node(st(1)),
                 "sizes" => Op::Sizes,
+                "clear" => Op::Clear,
                 _ => return None,
             });
         }
@@ -137,6 +141,7 @@ pub fn request(c: &Case) -> String {
             }
             Op::Node(q) => toks.push(format!("n:{}", hex(q))),
             Op::Sizes => toks.push("c".into()),
+            Op::Clear => toks.push("x".into()),
         }
     }
     format!("index.mod {} {} {} {} {}", c.cfg.fuzzy as u8, pats, wss, rules, toks.join(" "))
@@ -232,6 +237,10 @@ pub fn run_impl(c: &Case) -> Vec<String> {
                 ));
             }
             Op::Sizes => out.push(format!("c={}", sizes(&m))),
+            Op::Clear => {
+                m.clear();
+                out.push("x".into());
+            }
         }
     }
     out
@@ -481,6 +490,10 @@ fn oracle(c: &Case, report: &mut Report) -> Vec<String> {
                     fails.push(format!("step {k}: require({q:?}) resolves to {got:?}, the reference resolver ({branch}) selects {exp:?}"));
                 }
             }
+            Op::Clear => {
+                m.clear();
+                r.live.clear();
+            }
             Op::Node(_) | Op::Sizes => {}
         }
     }
@@ -619,6 +632,10 @@ pub fn gen_case(rng: &mut Rng, steps: usize) -> Case {
             6 | 7 => {
                 r.remove(f);
                 ops.push(Op::Remove(f));
+            }
+            8 if rng.chance(1, 4) => {
+                r.live.clear();
+                ops.push(Op::Clear);
             }
             _ => ops.push(Op::Hide(f, rng.chance(2, 3))),
         }
